@@ -288,7 +288,21 @@ func C01(tier string) int {
 		run.HarnessErr = err
 		return run.Finish()
 	}
+	// Histories with a storage fault below the store API: the first attestation is served while the storage is full.
+	fullRuns, fullBad, err := sigStorageFull(tier, [][]HReq{
+		{{Kind: "att", Keys: []int{0}, S: 1, T: 4, Root: 1}, {Kind: "att", Keys: []int{0}, S: 1, T: 4, Root: 2}},
+		{{Kind: "att", Keys: []int{0}, S: 0, T: 0, Root: 1}, {Kind: "att", Keys: []int{0}, S: 0, T: 0, Root: 2}},
+		{{Kind: "atts", Keys: []int{0, 1}, S: 2, T: 5, Root: 1}, {Kind: "att", Keys: []int{0}, S: 1, T: 6, Root: 2}},
+	})
+	if err != nil {
+		run.HarnessErr = err
+		return run.Finish()
+	}
+	for _, b := range fullBad {
+		run.Violate("storage-full-slashable:"+firstWords(b, 1), b, map[string]any{"check": "C01", "storage_full": true})
+	}
 	run.Coverage = map[string]any{
+		"storage_full_histories_run": fullRuns,
 		"two_key_single_processor": map[string]any{"ops_per_state": len(ops3), "states": r3.States, "transitions": r3.Transitions, "depth_completed": r3.DepthDone,
 			"approving_transitions": st3.approvals, "refusing_transitions": st3.refusals, "outcomes": st3.outcomes},
 		"states":                        r1.States + r2.States + r3.States,
